@@ -320,6 +320,119 @@ def check_translator(ctx):
     ctx.count("translator tables cross-checked", len(blocks))
 
 
+
+# ------------------------------------------------------------------ statelessness of the read-only rule API
+def _call(fn):
+    try:
+        v = fn()
+        return json.dumps(v, default=repr, sort_keys=False)
+    except Exception as e:  # noqa
+        return "raises " + type(e).__name__
+
+
+def exercise_rule_api(ctx, trees, file_rules, file_nmap):
+    """ASSUMPTION of every theorem about the tables: queries do not change them. Exercise the
+    whole public read-only Rule API on every rule twice (the second pass on the long-lived Rule
+    objects of the first pass AND on fresh ones), watching the live tables after every call."""
+    import copy
+    from metapype.eml import rule as R
+    from metapype.model.node import Node
+    FOREIGN = "zzForeign"
+    by_rule = {}
+    for n, rn in file_nmap.items():
+        if rn not in by_rule and trees.get(n) is not None:
+            by_rule[rn] = trees[n]
+    objs = {}
+    answers = {}
+    calls_made = 0
+    for rn in file_rules:
+        if R.rules_dict.get(rn) != file_rules[rn]:
+            ctx.fail(f"C10:table-mutated:{rn}", f"the live entry of '{rn}' no longer equals rules.json after validating the witness trees",
+                     {"kind": "impl-vs-statement", "rule": rn, "call_sequence": ["validate.tree(witness) for every element, both modes"],
+                      "entry_in_rules_json": file_rules[rn], "live_entry_after": R.rules_dict.get(rn)})
+            R.rules_dict[rn] = copy.deepcopy(file_rules[rn])
+
+    def run_calls(rn, r, log):
+        nonlocal calls_made
+        attrs, children, content = file_rules[rn]
+        try:
+            names = spec_names(parse_children(children))
+        except ValueError:
+            names = []
+        wt = by_rule.get(rn) or ("x", RL.canonical_content(file_rules[rn]), [], [])
+        calls = [("name", lambda: r.name), ("attributes", lambda: r.attributes), ("children", lambda: r.children),
+                 ("content_rules", lambda: r.content_rules), ("content_enum", lambda: r.content_enum),
+                 ("has_enum_content()", lambda: r.has_enum_content())]
+        for a in list(attrs) + [FOREIGN]:
+            calls.append((f"is_required_attribute({a!r})", lambda a=a: r.is_required_attribute(a)))
+            calls.append((f"allowed_attribute_values({a!r})", lambda a=a: r.allowed_attribute_values(a)))
+        for c in names + [FOREIGN]:
+            calls.append((f"is_allowed_child({c!r})", lambda c=c: r.is_allowed_child(c)))
+
+        def cii(c, kids):
+            parent = Node("parent")
+            for k in kids:
+                parent.add_child(Node(k))
+            return r.child_insert_index(parent, Node(c))
+        for c in names[:6] + [FOREIGN]:
+            calls.append((f"child_insert_index(parent{names[:2]!r}, {c!r})", lambda c=c: cii(c, names[:2])))
+
+        def val(collect):
+            node = RL.build_tree(wt)
+            errs = [] if collect else None
+            r.validate_rule(node, errs)
+            return None if errs is None else [RL.entry_code(e) for e in errs]
+        calls.append(("validate_rule(witness node)", lambda: val(False)))
+        calls.append(("validate_rule(witness node, errs=[])", lambda: val(True)))
+        out = []
+        for label, fn in calls:
+            res = _call(fn)
+            calls_made += 1
+            log.append(label)
+            out.append((label, res))
+            if R.rules_dict.get(rn) != file_rules[rn]:
+                now = R.rules_dict.get(rn)
+                ctx.fail(f"C10:table-mutated:{rn}",
+                         f"the read-only query {label} on Rule('{rn}') changed the rule table: the live entry of '{rn}' no longer equals rules.json",
+                         {"kind": "impl-vs-statement", "rule": rn, "call_sequence": [f"r = Rule({rn!r})"] + ["r." + c for c in log],
+                          "entry_in_rules_json": file_rules[rn], "live_entry_after": now,
+                          "well_formedness_problems_now": rule_problems(now, set(c for c in content.get("content_rules", []))) if now is not None else ["entry removed"]})
+                R.rules_dict[rn] = copy.deepcopy(file_rules[rn])    # keep going on an intact table
+        Node.store.clear()
+        return out
+
+    for pas in (1, 2):
+        for rn in file_rules:
+            log = []
+            try:
+                r = objs.get(rn) or R.Rule(rn)
+            except Exception:  # noqa
+                continue
+            objs[rn] = r
+            ans = run_calls(rn, r, log)
+            ctx.case(("api", pas, rn), True)
+            if pas == 1:
+                answers[rn] = ans
+            else:
+                fresh = run_calls(rn, R.Rule(rn), [])
+                for (lab, a1), (_, a2), (_, a3) in zip(answers[rn], ans, fresh):
+                    if not (a1 == a2 == a3):
+                        ctx.fail(f"C10:stateful:{rn}", f"Rule('{rn}').{lab} answers differently when asked again",
+                                 {"kind": "impl-vs-statement", "rule": rn, "call": lab, "first_pass": a1,
+                                  "second_pass_same_object": a2, "second_pass_fresh_object": a3})
+                        break
+            if R.rules_dict != file_rules or list(R.rules_dict) != list(file_rules):
+                for other in file_rules:
+                    if R.rules_dict.get(other) != file_rules[other]:
+                        ctx.fail(f"C10:table-mutated:{other}", f"exercising Rule('{rn}') changed the live entry of rule '{other}'",
+                                 {"kind": "impl-vs-statement", "rule": other, "exercised_rule": rn, "call_sequence": log,
+                                  "entry_in_rules_json": file_rules[other], "live_entry_after": R.rules_dict.get(other)})
+                        R.rules_dict[other] = copy.deepcopy(file_rules[other])
+            if dict(R.node_mappings) != file_nmap:
+                ctx.fail("C10:table-mutated:node_mappings", f"exercising Rule('{rn}') changed node_mappings",
+                         {"kind": "impl-vs-statement", "exercised_rule": rn, "call_sequence": log})
+    ctx.count("read-only API calls watched for table mutation", calls_made)
+
 # ------------------------------------------------------------------ the check
 def demonstrate_gap(R, validate, Node, parent, gap, trees):
     """Find children for `parent` containing `gap` such that validate.node(parent) accepts
@@ -380,6 +493,10 @@ def run(ctx):
                          "flattened child names model vs implementation), per (reachable rule, permitted child name), per "
                          "translator table, per canonical oracle literal; non-trivial = distinct case")
     rules, nmap = R.rules_dict, R.node_mappings
+    # the tables as the FILES define them (rules.json re-read; node_mappings as imported, cross-checked below)
+    with open(os.path.join(common.REPO, "src", "metapype", "eml", "rules.json"), encoding="utf-8") as f:
+        file_rules = json.load(f)
+    file_nmap = dict(R.node_mappings)
     # ---- (A) translator vs live objects
     check_translator(ctx)
 
@@ -459,6 +576,7 @@ def run(ctx):
                  {"kind": "broken-correspondence", "error": str(e)}, concrete=False)
     pytrees = None
     validated = 0
+    first_ok_names = set()
     sizes = []
     for n in names:
         if n not in trees:
@@ -471,6 +589,7 @@ def run(ctx):
             sizes.append(tree_size(t))
             if t[0] == n and obs == ("OK", []):
                 validated += 1
+                first_ok_names.add(n)
                 ctx.sample({"element": n, "witness_nodes": tree_size(t), "validate.tree": "accepted (both modes)"}, limit=5)
                 continue
         # Coq produced no tree, or the implementation rejects it: look for any validating tree independently
@@ -521,6 +640,23 @@ def run(ctx):
                  f"child name '{c}' is permitted by the rule of '{rep['parent_element']}' but is not a known element: "
                  "validate.node accepts the parent, validate.tree raises UnknownNodeError",
                  rep, concrete=bool(rep.get("demonstrated")))
+    # ---- statelessness: the whole read-only API twice, then the tables and the witnesses once more
+    exercise_rule_api(ctx, trees, file_rules, file_nmap)
+    check_translator(ctx)
+    again = 0
+    for n, t in trees.items():
+        if t is None:
+            continue
+        obs = RL.impl_tree(t)
+        ctx.case(("witness-after-queries", n), True)
+        if obs == ("OK", []):
+            again += 1
+        else:
+            ctx.fail(f"C10:witness-after-queries:{n}", f"the witness tree of '{n}' no longer validates after the read-only queries: {obs}",
+                     {"kind": "impl-vs-statement", "element": n, "tree": tree_json(t), "validate.tree": obs,
+                      "history": "every public read-only method of Rule called twice on every rule"},
+                     concrete=n in first_ok_names)
+    ctx.extra["witness_trees_validated_again_after_queries"] = again
     if not built:
         ctx.obligations_failed("complete enumeration of the live tables in Python: rule existence, well-formedness, "
                                "permitted child names, witness trees validated on the implementation")
